@@ -131,7 +131,8 @@ theorem sk_sqOpenD (s : St) (q : Query) (srv : Server) (fd : Nat) :
   exact sk_addConn_st s { fd := fd, srv := srv.id, tcp := q.usingTcp, selfIp := s.selfVariant } rfl rfl
 
 /-- result of `ares_open_connection`: an ordinary step; on success the new connection is linked -/
-theorem sqOpen_ok {d} {s : St} (q : Query) (srv : Server) (hw : Wf s) (hd : DebtOk none d s.sk) :
+theorem sqOpen_ok {d} {s : St} (q : Query) (srv : Server) (hw : Wf s) (hd : DebtOk none d s.sk)
+    (hsrv : srv ∈ s.servers) :
     Mid d s (sqOpen s q srv).2 ∧ ∀ fd, (sqOpen s q srv).1 = .ok fd → (sqOpen s q srv).2.sk.hasConn fd false := by
   unfold sqOpen
   simp only
@@ -163,7 +164,7 @@ theorem sqOpen_ok {d} {s : St} (q : Query) (srv : Server) (hw : Wf s) (hd : Debt
           rw [sk_sqOpenD, hsk2, hskC, hskA]
         have hwA : WfS s.sk.addSock none := wf_addSock hw
         have hwD : WfS (s.sk.addSock.addConn s0.nextFd srv.id q.usingTcp) none := by
-          refine wf_addConn hwA ?_ ?_ ?_
+          refine wf_addConn hwA ?_ ?_ ?_ ⟨srv.sk, List.mem_map.mpr ⟨srv, hsrv, rfl⟩, rfl⟩
           · show s0.nextFd < s.sk.nextFd + 1; omega
           · show s0.nextFd ∈ s.sk.socks ++ [s.sk.nextFd]
             rw [hnf]; exact List.mem_append.mpr (Or.inr (List.mem_singleton.mpr rfl))
